@@ -634,3 +634,160 @@ def _is_bit_test(c, rvar):
                 and b == ('bin', '<<', ('num', 1), ('bin', '%', ('var', rvar), ('num', 8))):
             return True
     return False
+
+
+# ------------------------------------------------------------------------------------------ build-configuration invariance
+LIB_UNITS = ['dd_dtw.c', 'dd_ed.c', 'dd_dtw_openmp.c', 'dd_globals.c']
+
+
+def _serialise(body):
+    from ..dump import dump
+    import re
+    out = []
+    dump(body, 0, lambda l: out.append(re.sub(r'^\d+\s+', '', l.strip())))
+    return out
+
+
+def rule_config_invariance(ctx, m, units=LIB_UNITS):
+    """The extension is built with the interpreter's CFLAGS, which contain -DNDEBUG, while the rules analyse the configuration with asserts
+    (they read the asserts as stated preconditions).  The two configurations must be the same program up to the assert statements:
+    (a) every assert condition is free of side effects; (b) function by function, the NDEBUG translation unit equals the analysed one with
+    the asserts deleted."""
+    n = 0
+    for un in units:
+        u0 = m.c(un)
+        u1 = m.c(un, defines=('NDEBUG',))
+        ctx.check(sorted(u0.funcs) == sorted(u1.funcs), 'R-CFG', u0.path, un, 'function set',
+                  'the NDEBUG configuration defines a different set of functions: %s' % sorted(set(u0.funcs) ^ set(u1.funcs))[:6], 1)
+        for fn, f in sorted(u0.funcs.items()):
+            for st in walk_stmts(f.body):
+                if st.k == 'assert':
+                    n += 1
+                    impure = [fmt(x)[:60] for x in walk_expr(st.cond) if x[0] in ('call', 'other')]
+                    ctx.check(not impure, 'R-CFG', u0.path, fn, 'assert %s' % fmt(st.cond)[:80],
+                              'assert condition has a side effect or a call (%s): the shipped NDEBUG build does not execute it' % impure, st.line)
+            g = u1.funcs.get(fn)
+            if g is None:
+                continue
+            a = [l for l in _serialise(f.body) if not l.lstrip().startswith('assert ')]
+            b = [l for l in _serialise(g.body) if l.strip() != 'expr 0']
+            a = [l for l in a if l.strip() != 'expr 0']
+            n += 1
+            if a == b:
+                ctx.held('R-CFG', '%s:%s NDEBUG body' % (un, fn))
+            else:
+                diff = next(((x, y) for x, y in zip(a + [''] * len(b), b + [''] * len(a)) if x != y), ('', ''))
+                ctx.violation('R-CFG', u0.path, fn, 'NDEBUG body', 'with -DNDEBUG (the shipped build) the function differs from the analysed configuration by more '
+                              'than its asserts: `%s` vs `%s`' % (diff[0].strip()[:100], diff[1].strip()[:100]), f.line)
+    ctx.count('functions compared across configurations + asserts', n)
+
+
+# ------------------------------------------------------------------------------------------ sibling skeletons (squared / euclidean)
+def _nx(e):
+    """Normalise an expression: drop the variant suffix, sqrt(E) -> E, pow(E, 2) -> E, (a-b)*(a-b) and fabs(a-b) -> PD(a, b)."""
+    if not isinstance(e, tuple) or not e:
+        return e
+    if e[0] == 'call':
+        d = dotted(e[1]) or ''
+        if d in ('sqrt', 'sqrtf') and len(e[2]) == 1:
+            return _nx(e[2][0])
+        if d in ('pow', 'powf') and len(e[2]) == 2 and e[2][1] == ('num', 2):
+            return _nx(e[2][0])
+        if d in ('fabs', 'fabsf') and len(e[2]) == 1 and e[2][0][0] == 'bin' and e[2][0][1] == '-':
+            return ('call', ('var', 'PD'), [_nx(e[2][0][2]), _nx(e[2][0][3])], ())
+        if d.endswith('_euclidean'):
+            e = ('call', ('var', d[:-len('_euclidean')])) + tuple(e[2:])
+    if e[0] == 'bin' and e[1] == '*' and e[2] == e[3] and e[2][0] == 'bin' and e[2][1] == '-':
+        return ('call', ('var', 'PD'), [_nx(e[2][2]), _nx(e[2][3])], ())
+    return tuple(_nx(x) if isinstance(x, tuple) else ([_nx(y) for y in x] if isinstance(x, list) else x) for x in e)
+
+
+def _nstmts(stmts, self_name):
+    """Normalised copy of a statement list (see rule_sibling_skeleton)."""
+    from ..ir import S
+    out = []
+    for st in stmts:
+        k = st.k
+        if k == 'assert':
+            continue
+        if k == 'assign':
+            t, v = _nx(st.target), _nx(st.value)
+            if t == v:
+                continue            # x = pow(x, 2) / x = sqrt(x) after normalisation
+            out.append(S('assign', None, target=t, value=v))
+        elif k == 'decl':
+            out.append(S('decl', None, name=st.name, ctype=st.ctype, init=_nx(st.init) if st.init is not None else None))
+        elif k == 'if':
+            c = _nx(st.cond)
+            th, el = _nstmts(st.then, self_name), _nstmts(st.els, self_name)
+            # the dispatch head of the squared variant: if (settings.inner_dist == 1) return <same family>(...)
+            if fmt(c) == '(settings.inner_dist == 1)' and len(th) == 1 and th[0].k == 'return' and th[0].value is not None and th[0].value[0] == 'call' \
+                    and dotted(th[0].value[1]) == self_name and not el:
+                continue
+            if not th and not el:
+                continue
+            if _ser(th) == _ser(el):
+                out.extend(th)      # both arms equal after normalisation (e.g. return x / return sqrt(x))
+                continue
+            out.append(S('if', None, cond=c, then=th, els=el))
+        elif k in ('for', 'while', 'loop', 'foreach', 'omp', 'with'):
+            d = dict(st.d)
+            for key in ('body', 'init', 'inc'):
+                if key in d and isinstance(d[key], list):
+                    d[key] = _nstmts(d[key], self_name)
+            for key in ('lo', 'hi', 'step', 'cond'):
+                if key in d and isinstance(d[key], tuple):
+                    d[key] = _nx(d[key])
+            if not d.get('body'):
+                continue
+            out.append(S(k, None, **d))
+        elif k in ('return', 'expr', 'raise'):
+            out.append(S(k, None, value=_nx(st.value) if st.value is not None else None))
+        else:
+            out.append(S(k, None, **st.d))
+    return out
+
+
+def _ser(stmts):
+    return _serialise(stmts)
+
+
+# accepted residual differences between a squared kernel and its euclidean sibling: (family, squared line, euclidean line): reason
+SIBLING_EXCEPTIONS = {
+    ('lb_keogh', 't = (t + PD(li, ci))', 't = (t + (li - ci))'): 'on this branch ci < li, so li - ci = |li - ci|',
+}
+
+
+def rule_sibling_skeleton(ctx, m, families=None):
+    """Every C kernel exists as a squared-distance function and a `_euclidean` sibling rendered from the same template.  After removing what
+    legitimately differs -- the dispatch head, the point distance ((a-b)^2 vs |a-b|), the pow(x, 2) conversions of thresholds and the sqrt of
+    results -- the two must be the same program: an edit made to one sibling only is a disagreement between the two inner distances."""
+    allf = m.all_cfuncs()
+    fams = sorted(n for n in allf if n + '_euclidean' in allf and (families is None or n in families))
+    n = 0
+    for fam in fams:
+        a, b = allf[fam], allf[fam + '_euclidean']
+        A, B = _ser(_nstmts(a.body, fam)), _ser(_nstmts(b.body, fam))
+        A = [l.replace('_euclidean', '') for l in A]
+        B = [l.replace('_euclidean', '') for l in B]
+        n += 1
+        import difflib
+        sm = difflib.SequenceMatcher(a=A, b=B, autojunk=False)
+        bad = []
+        for tag, i1, i2, j1, j2 in sm.get_opcodes():
+            if tag == 'equal':
+                continue
+            la, lb = A[i1:i2], B[j1:j2]
+            if len(la) == len(lb) and all((fam, x, y) in SIBLING_EXCEPTIONS for x, y in zip(la, lb)):
+                continue
+            bad.append((la[:2], lb[:2]))
+        if not bad:
+            ctx.held('R-VAR', 'siblings %s / %s_euclidean agree up to the inner-distance differences' % (fam, fam), '%d statements' % len(A))
+        else:
+            # A syntactic disagreement is not a verdict: a behaviour-preserving rewrite of one sibling only also lands here (the self-test twins
+            # T1-T3 do).  It is reported as a cross-reference for the reader; the kernels are decided one by one against the scheme.
+            ctx.undecided('R-VAR', 'siblings %s / %s_euclidean' % (fam, fam), 'syntactic drift, see NOTE')
+            ctx.note('SIBLING-DRIFT %s vs %s_euclidean (same template): beyond point distance / pow / sqrt the squared variant has %s where the euclidean '
+                     'variant has %s (%d differing block(s)); not a verdict' % (fam, fam, bad[0][0], bad[0][1], len(bad)))
+    ctx.count('squared/euclidean sibling pairs', n)
+    return n
